@@ -76,7 +76,7 @@ def run(ctx):
                    site='%s:%d' % (b.file, b.line))
             if cfg == ctx.cfgs[0] and n <= 4:
                 ctx.sample({'rule': 'CERT', 'constructor': q, 'certified': ok})
-        ctx.floor('exported batch constructors', 11, n, cfg)
+        ctx.floor('exported batch constructors', 8, n, cfg)
         # TWIN: every constructor path exists twice (plain / *_with_construction_statistics); the twins must certify with
         # the same verifiers (a cheaper verifier in one of them silently weakens that half of the API)
         ctx.rule('TWIN', 'a function and its *_with_construction_statistics twin gate their Ok on the same Delaunay verifiers')
@@ -115,7 +115,7 @@ def run(ctx):
                    site='%s:%d' % (prog.bodies[q].file, prog.bodies[q].line))
         ctx.floor('constructor twins that call a verifier directly', 2, nt, cfg)
         import twins
-        twins.check(ctx, cfg, prog, 'TWIN', lambda q_: q_.startswith(DTQ) and not q_.rsplit('::', 1)[-1].startswith('insert'), 5)
+        twins.check(ctx, cfg, prog, 'TWIN', lambda q_: q_.startswith(DTQ) and not q_.rsplit('::', 1)[-1].startswith('insert'), 3)
         ctx.info.setdefault('certified_bodies', {})[cfg] = sorted(C)
         # PLGATE
         m = 0
